@@ -54,6 +54,7 @@ structure HF where
   face : Nat
   cell : Nat
   sgn : Rat
+deriving DecidableEq
 
 /-- Everything `Tpfa.discretize` reads: topology, geometry, permeability, boundary condition. -/
 structure Grid where
